@@ -47,6 +47,8 @@ MODES = [
     {"name": "mergetool-noout", "closable": False, "base_url": "/"},
     {"name": "mergetool-out", "closable": False, "base_url": "/nb/dime/"},
     {"name": "difftool", "closable": False, "base_url": "/nb/dime/"},
+    # the diff tool handed OPEN FILES instead of names (what `nbdiff-web <rev>` against the work tree passes on)
+    {"name": "difftool-streams", "closable": False, "base_url": "/"},
 ]
 
 
@@ -68,6 +70,9 @@ class Server:
         name = self.mode["name"]
         if name == "difftool":
             params["difftool_args"] = {"base": self.files["base"], "remote": self.files["remote"]}
+        if name == "difftool-streams":
+            self.streams = [open(os.path.join(self.cwd, self.files[k]), encoding="utf8") for k in ("base", "remote")]
+            params["difftool_args"] = {"base": self.streams[0], "remote": self.streams[1]}
         if name.startswith("mergetool"):
             params["mergetool_args"] = {"base": self.files["base"], "local": self.files["local"], "remote": self.files["remote"]}
             if name == "mergetool-out":
@@ -152,9 +157,13 @@ def gen_requests(r, mode, prefix, n):
             reqs.append(("store-malformed", "POST", api + "/api/store", json.dumps(bad).encode()))
         elif c < 0.6:
             reqs.append(("close", "POST", api + "/api/closetool", json.dumps({"exitCode": 0}).encode()))
-        elif c < 0.66:
+        elif c < 0.64:
             # not a request: the user saves a notebook again (possibly within the same second as the last read)
             reqs.append(("fs-rewrite", "FS", r.choice(["remote.ipynb", "base.ipynb", "local.ipynb"]), None))
+        elif c < 0.66:
+            # an editor is half-way through saving remote.ipynb (momentarily not JSON) while a diff is requested; the file
+            # is complete again right afterwards
+            reqs.append(("fs-garbage-then-repair", "FS", "remote.ipynb", None))
         elif c < 0.68:
             reqs.append(("malformed-notjson", "POST", api + r.choice(["/api/diff", "/api/merge", "/api/store"]), b"{not json"))
         elif c < 0.75:
@@ -198,6 +207,10 @@ def run_sequence(col, r, root, mode, nreq, seqno):
     import nbformat
     gen = NBGen(r, exotic=False)
     cls, b, l, rm, info, waste = valid_triple(gen)
+    if cls in ("large_outputs", "long_notebook"):
+        # every session diffs its notebooks a dozen times (requests + probes): the size classes, whose single diff can
+        # take seconds, are left to the library-level checks
+        cls, b, l, rm, info, waste = valid_triple(gen, cls="random")
     if cls is None:
         return
     if r.random() < 0.2:
@@ -255,6 +268,23 @@ def run_sequence(col, r, root, mode, nreq, seqno):
     stopped = False
     try:
         for idx, (kind, method, path, body) in enumerate(reqs):
+            if kind == "fs-garbage-then-repair":
+                fpath = os.path.join(case, path)
+                with open(fpath, encoding="utf8") as f_:
+                    good = f_.read()
+                with open(fpath, "w", encoding="utf8") as f_:
+                    f_.write('{"cells": [ {"cell_type": "code", "sour')
+                st_, _d = srv.request("POST", api + "/api/diff", probe_body)
+                col.eval()
+                col.mon("malformed")
+                col.count("requests_while_a_notebook_was_half_written")
+                if mode["name"] in ("server", "difftool", "difftool-streams") and st_ < 400:
+                    col.violation("malformed-request-answered-2xx:half-written-notebook", "status %s [mode=%s]" % (st_, mode["name"]), dict(wit0, history=list(history)), "malformed")
+                with open(fpath, "w", encoding="utf8") as f_:
+                    f_.write(good)
+                history.append([kind, "FS", path])
+                seen_malformed = True
+                continue
             if kind == "fs-rewrite":
                 from ..gen_edit import mutate
                 from ..gen_nb import validate_nb as _val
@@ -296,7 +326,7 @@ def run_sequence(col, r, root, mode, nreq, seqno):
             wit = dict(wit0, history=list(history), request={"kind": kind, "method": method, "path": path,
                                                              "body": (body_bytes or b"").decode("utf8", "replace")[:400]})
             outpath = os.path.join(case, "merged-output.ipynb")
-            if kind == "diff-valid" and mode["name"] != "difftool" and any(
+            if kind == "diff-valid" and not mode["name"].startswith("difftool") and any(
                     os.path.exists(os.path.join(case, n)) and os.path.getsize(os.path.join(case, n)) == 0
                     for n in (json.loads(body_bytes).get("base"), json.loads(body_bytes).get("remote")) if isinstance(n, str)):
                 # /api/diff of a zero-size file: not a notebook, the server may refuse it (only the merge tool session
@@ -310,7 +340,7 @@ def run_sequence(col, r, root, mode, nreq, seqno):
                     try:
                         ans = json.loads(data)
                         req = json.loads(body_bytes)
-                        if mode["name"] == "difftool":
+                        if mode["name"].startswith("difftool"):
                             want_base, want_remote = "base.ipynb", "remote.ipynb"
                         else:
                             want_base, want_remote = req["base"], req["remote"]
@@ -393,7 +423,7 @@ def run_sequence(col, r, root, mode, nreq, seqno):
                 if changed:
                     col.violation("close-changed-disk", str(changed[:3]), wit, "close")
             else:
-                tool_fixed = (mode["name"] == "difftool" and path.endswith("/api/diff") and path.startswith(api + "/api")) or \
+                tool_fixed = (mode["name"].startswith("difftool") and path.endswith("/api/diff") and path.startswith(api + "/api")) or \
                              (mode["name"].startswith("mergetool") and path.endswith("/api/merge") and path.startswith(api + "/api"))
                 if tool_fixed and kind != "malformed-wrongmethod":
                     # tool sessions take their notebooks from the start-up parameters and never read the body:
@@ -410,7 +440,7 @@ def run_sequence(col, r, root, mode, nreq, seqno):
             if stopped:
                 break
             # probe: later requests must be answered as if they were the first
-            if mode["name"] in ("server", "difftool"):
+            if mode["name"] in ("server", "difftool", "difftool-streams"):
                 ps, pdata = srv.request("POST", api + "/api/diff", probe_body)
                 col.mon("probe_history")
                 if ps != 200:
